@@ -235,7 +235,7 @@ type scanCase struct {
 	cells   []string // "null" or the id
 }
 
-var foreignNames = []string{"id", "name", "x", "count(*)", "_sqlair_", "_sqlair_x", "_sqlair_-1", "_SQLAIR_0", "sqlair_0", "_sqlair_1x", "col", ""}
+var foreignNames = []string{"0", "1", "7", "+2", "id", "name", "x", "count(*)", "_sqlair_", "_sqlair_x", "_sqlair_-1", "_SQLAIR_0", "sqlair_0", "_sqlair_1x", "col", ""}
 var aliasLike = []string{"_sqlair_+0", "_sqlair_00", "_sqlair_-0", "_sqlair_01"}
 
 // colScript builds the columns and the row for a statement with n outputs.
